@@ -15,13 +15,14 @@ trap 'git -C /repo worktree remove --force "$WT" >/dev/null 2>&1' EXIT
 DEMODIR="$WT"; grep -q '^package grammar' "$SRC/demo_test.go" && DEMODIR="$WT/grammar"
 TESTNAME="$(grep -o 'func Test[A-Za-z0-9_]*' "$SRC/demo_test.go" | head -1 | sed 's/func //')"
 cp "$SRC/demo_test.go" "$DEMODIR/zz_seed_demo_test.go"
-clean_demo=$(cd "$DEMODIR" && go test -vet=off -count=1 -run "^$TESTNAME\$" . >/dev/null 2>&1 && echo pass || echo FAIL)
+RACE=""; [ -n "${DEMO_RACE:-}" ] && RACE="-race"
+clean_demo=$(cd "$DEMODIR" && go test $RACE -vet=off -count=1 -run "^$TESTNAME\$" . >/dev/null 2>&1 && echo pass || echo FAIL)
 rm "$DEMODIR/zz_seed_demo_test.go"
 git -C "$WT" apply "$PATCH" || { echo "$P$V: patch does not apply"; exit 2; }
 build=$(cd "$WT" && go build ./... >/dev/null 2>&1 && go build -tags verif ./... >/dev/null 2>&1 && echo ok || echo FAIL)
 suite=$(cd "$WT" && go test -vet=off -count=1 ./... >/dev/null 2>&1 && echo pass || echo FAIL)
 cp "$SRC/demo_test.go" "$DEMODIR/zz_seed_demo_test.go"
-patched_demo=$(cd "$DEMODIR" && go test -vet=off -count=1 -run "^$TESTNAME\$" . >/dev/null 2>&1 && echo PASS || echo fail)
+patched_demo=$(cd "$DEMODIR" && go test $RACE -vet=off -count=1 -run "^$TESTNAME\$" . >/dev/null 2>&1 && echo PASS || echo fail)
 rm "$DEMODIR/zz_seed_demo_test.go"
 echo "$P$V: demo-on-clean=$clean_demo build=$build existing-suite-with-patch=$suite demo-with-patch=$patched_demo"
 if [ "$clean_demo" != pass ] || [ "$build" != ok ] || [ "$suite" != pass ] || [ "$patched_demo" != fail ]; then echo "$P$V: NOT CONFIRMED"; exit 1; fi
@@ -43,7 +44,7 @@ meta={"id":p+v,"breaks_property":p,"base_commit":head,
  "needs_to_manifest":"see NOTES.md (written by the sub-agent that produced the change)",
  "origin":"independent sub-agent given only the property text and a scratch worktree",
  "patch_rebased_by_hand": reb=="true",
- "demonstration":{"file":"demo_test.go","test":test,"package_dir":"grammar" if "package grammar" in open(d+'/demo_test.go').read() else "."},
+ "demonstration":{"file":"demo_test.go","test":test,"needs_race_detector": bool(__import__("os").environ.get("DEMO_RACE")),"package_dir":"grammar" if "package grammar" in open(d+'/demo_test.go').read() else "."},
  "confirmed":{"applies_to_base":True,"builds":True,"existing_suite_passes_with_patch":True,"demo_passes_on_clean":True,"demo_fails_with_patch":True},
  "checks_run_quick":json.loads(res),
  "detected_by":[r["check"] for r in json.loads(res) if r["exit"]==1]}
